@@ -2177,3 +2177,30 @@ fn k_contract_partial_alpha() {
 #[kani::stub_verified(saturated_add)]
 #[kani::stub_verified(coverage_to_partial_alpha)]
 fn k_mask_super_blit_span_modular() { k_mask_super_blit_span(); }
+
+// ---------------------------------------------------------------- half-pixel conjugation of the sampling matrix (C13 #6)
+fn mfp_eq(a: &MatrixFixedPoint, b: &MatrixFixedPoint) -> bool { a.xx == b.xx && a.xy == b.xy && a.yx == b.yx && a.yy == b.yy && a.x0 == b.x0 && a.y0 == b.y0 }
+// @ob id=K.transformed_shader_matrix props=C13 kind=bounded:3-concrete-matrices tier=quick timeout=600 fns=TransformedImageShader::new,TransformedImageAlphaShader::new,TransformedNearestImageShader::new,TransformedNearestImageAlphaShader::new,transform_to_fixed
+// @+ desc="all four transformed image shaders (nearest / bilinear, with / without alpha) build the SAME 16.16 sampling matrix for a given transform, and it is the half-pixel conjugate: pixel (x,y) samples the image at M·(x+0.5, y+0.5) − (0.5, 0.5), i.e. linear part unchanged and offset = m31 + 0.5·(m11+m21) − 0.5 (likewise y); checked exactly on a 2x shrink, a mirror and a translation (all dyadic, so the fixed-point values are exact)"
+#[kani::proof]
+#[kani::unwind(4)]
+fn k_transformed_shader_matrix() {
+    let data = [0u32; 4];
+    let img = Image { width: 2, height: 2, data: &data };
+    let ts = [Transform::new(2., 0., 0., 2., 0., 0.), Transform::new(-1., 0., 0., 1., 8., 0.), Transform::new(1., 0., 0., 1., 0.25, -3.5)];
+    let mut k = 0;
+    while k < 3 {
+        let t = ts[k];
+        let a = TransformedImageShader::<PadFetch>::new(&img, &t);
+        let b = TransformedImageAlphaShader::<RepeatFetch>::new(&img, &t, 128);
+        let c = TransformedNearestImageShader::<RepeatFetch>::new(&img, &t);
+        let d = TransformedNearestImageAlphaShader::<PadFetch>::new(&img, &t, 128);
+        assert!(mfp_eq(&a.xfm, &b.xfm) && mfp_eq(&a.xfm, &c.xfm) && mfp_eq(&a.xfm, &d.xfm), "all four shader kinds sample at the same position");
+        let fx = |v: f32| float_to_fixed(v);
+        assert!(a.xfm.xx == fx(t.m11) && a.xfm.xy == fx(t.m21) && a.xfm.yx == fx(t.m12) && a.xfm.yy == fx(t.m22), "linear part unchanged");
+        assert!(a.xfm.x0 == fx(t.m31 + 0.5 * (t.m11 + t.m21) - 0.5) && a.xfm.y0 == fx(t.m32 + 0.5 * (t.m12 + t.m22) - 0.5), "offset = M(pixel centre) - half a texel");
+        assert!(b.alpha == 129 && d.alpha == 129, "alpha256 = alpha byte + 1");
+        k += 1;
+    }
+    kani::cover!(true);
+}
